@@ -261,7 +261,7 @@ func TestC04(t *testing.T) {
 		kit.Eval()
 		return
 	}
-	kit.SetRapid(kit.N(320, 16000))
+	kit.SetRapid(kit.N(320, 6000))
 	rapid.Check(t, kit.Prop("C04", func(t *rapid.T) {
 		base := kit.GenWorld(t, kit.GenOpts{Wide: rapid.Bool().Draw(t, "wide"), MaxLines: 30})
 		ea := c04Edits(t, base, "ea")
